@@ -167,6 +167,11 @@ def install(eng):
         if isinstance(v, MapView):
             if v.kind == "keys":
                 s = SymSet(lambda t, m=v.m: z3.Select(m.dom, t), name=v.name, sort=v.m.dom.domain())
+                s.of_map = (v.m, "keys")
+                return s
+            if v.kind == "values":
+                s = SymSet(lambda t, m=v.m: z3.Exists([z3.Int("lv_k")], z3.And(z3.Select(m.dom, z3.Int("lv_k")), z3.Select(m.val, z3.Int("lv_k")) == t)), name=v.name)
+                s.of_map = (v.m, "values")
                 return s
             raise Unsupported("list() of symbolic dict view")
         return list(eng.iterate(v))
@@ -201,6 +206,12 @@ def install(eng):
         if k:
             raise Unsupported("max with key/default")
         vals = list(a) if len(a) > 1 else a[0]
+        if isinstance(vals, SymSeq):
+            return _seq_extreme(vals, True)
+        if isinstance(vals, SymSet) and getattr(vals, "of_map", None) is not None:
+            from .npmodel import ParArr
+            r = ParArr(vals.of_map[0], vals.of_map[1], "int64").pyvc_max()
+            return SymInt(r.term)
         if hasattr(vals, "pyvc_max"):
             return vals.pyvc_max()
         vals = eng.iterate(vals)
@@ -209,13 +220,19 @@ def install(eng):
         if any(hasattr(v, "pyvc_binmax") for v in vals):
             return fold(vals, lambda x, y: x.pyvc_binmax(y) if hasattr(x, "pyvc_binmax") else y.pyvc_binmax(x))
         if any(isinstance(v, Sym) for v in vals):
-            return fold(vals, lambda x, y: ite(y > x, y, x))
+            r = fold(vals, lambda x, y: ite(y > x, y, x))
+            dts = {getattr(v, "dtype", None) for v in vals}
+            if len(dts) == 1 and None not in dts and isinstance(r, Sym):
+                r = wrap(r.term, True, dts.pop())
+            return r
         return max(vals)
 
     def py_min(*a, **k):
         if k:
             raise Unsupported("min with key/default")
         vals = list(a) if len(a) > 1 else a[0]
+        if isinstance(vals, SymSeq):
+            return _seq_extreme(vals, False)
         if hasattr(vals, "pyvc_min"):
             return vals.pyvc_min()
         vals = eng.iterate(vals)
@@ -226,6 +243,22 @@ def install(eng):
         if any(isinstance(v, Sym) for v in vals):
             return fold(vals, lambda x, y: ite(y < x, y, x))
         return min(vals)
+
+    def _seq_extreme(seq, is_max):
+        """max()/min() of a symbolic sequence of scalars: an attained bound."""
+        n = to_term(seq.length)
+        if not eng.truth(wrap(n > 0)):
+            raise PyRaise(PyExc(ValueError, ("max() arg is an empty sequence",)))
+        t = seq.template
+        if not isinstance(t, Sym):
+            raise Unsupported("max of a sequence of non-scalars")
+        mx = eng.fresh("seqmax" if is_max else "seqmin", t.term.sort())
+        w = eng.fresh("seqarg", z3.IntSort())
+        i = z3.Int(f"sx!{eng.fresh_n}")
+        el = lambda q: z3.substitute(t.term, (seq.i0, q))
+        eng.assume(z3.And(0 <= w, w < n, el(w) == mx,
+                          z3.ForAll([i], z3.Implies(z3.And(0 <= i, i < n), el(i) <= mx if is_max else el(i) >= mx))), why="max/min of a sequence")
+        return wrap(mx, t.np, t.dtype)
 
     def py_abs(v):
         return abs(v)
